@@ -72,7 +72,12 @@ pub fn ask(a: &AskOrderV1) -> String {
             AskOrderStatus::Ready { approver, converted_base } => {
                 format!("r {} {}", enc(approver.as_str()), coin(converted_base))
             }
+            // a status this harness does not know (the driver reports it as a protocol error)
+            #[allow(unreachable_patterns)]
+            _ => "?".to_string(),
         },
+        #[allow(unreachable_patterns)]
+        _ => "?".to_string(),
     };
     format!(
         "{} {} {} {} {} {} {}",
@@ -110,6 +115,8 @@ pub fn action(a: &Action) -> String {
         Action::Reject { base, fee, quote } => {
             format!("j {} {} {}", coin(base), opt_coin(fee), coin(quote))
         }
+        #[allow(unreachable_patterns)]
+        _ => "?".to_string(),
     }
 }
 
@@ -197,6 +204,9 @@ pub fn query_msg(q: &QueryMsg) -> String {
         QueryMsg::GetBid { id } => format!("get_bid {}", enc(id)),
         QueryMsg::GetContractInfo {} => "get_contract_info".into(),
         QueryMsg::GetVersionInfo {} => "get_version_info".into(),
+        // a query kind added to the contract after this harness was written: never generated
+        #[allow(unreachable_patterns)]
+        _ => "unknown_query".into(),
     }
 }
 
@@ -260,5 +270,8 @@ pub fn exec_msg(m: &ExecuteMsg) -> String {
             opt_list(ask_required_attributes),
             opt_list(bid_required_attributes)
         ),
+        // a request kind added to the contract after this harness was written: never generated
+        #[allow(unreachable_patterns)]
+        _ => "unknown_exec".into(),
     }
 }
